@@ -283,6 +283,8 @@ def run(ctx):
     ctx.guard("C10.R5", "RandomChance", lambda: r5_random_chance(ctx))
     ctx.guard("C10.R6", "And/Or/Not", lambda: r6_logical(ctx))
     ctx.guard("C10.R7", "ChangeOf memory key", lambda: r7_memory_key(ctx))
+    ctx.guard("C10.R8", "lenses observe the state they name", lambda: r8_lenses(ctx))
+    ctx.guard("C10.R9", "loops make exactly the scripted passes, each loop on its own counter", lambda: __import__("c16").r11_nested_loops(ctx, "C10.R9"))
 
 
 def r7_memory_key(ctx):
@@ -317,3 +319,78 @@ def r7_memory_key(ctx):
                               "%s keeps the last reported value under %s, which does not name the lens %s itself: every ChangeOf whose lens has the same target type shares this one value"
                               % (mname, ty, lens), loc=g.loc(t.get("line")))
     ctx.floor("C10.R7", "state accesses of ChangeOf", n, 2)
+
+
+def r8_lenses(ctx):
+    """K6: the conditions (and mappings, loggers) observe the state through lenses.  ValueOf<T> / IdLens<T>: get_ref / get_mut
+    hand out exactly the registry's guard for the lens' OWN T (shared resp. exclusive family), get is a clone of it, a missing T
+    is an Err; `assign` stores the value through get_mut; PopulationSizeLens maps the population stack to the size of its TOP
+    population."""
+    F = ctx.facts
+    L = "mahf::lens::common::"
+    n = 0
+    for adt, shared, excl in ((L + "ValueOf", "try_borrow_value", "try_borrow_value_mut"), (L + "IdLens", "try_borrow", "try_borrow_mut")):
+        for meth, trait, fam in (("get_ref", "mahf::lens::LensRef", shared), ("get_mut", "mahf::lens::LensMut", excl), ("get", "mahf::lens::Lens", shared)):
+            fn = F.method(adt, meth, trait)
+            bad = []
+            for present in (True, False):
+                asked = []
+
+                def acc(interp, env, f, args, present=present, fam=fam):
+                    asked.append((f.get("name"), (f.get("cgargs") or f.get("gargs") or [None])[0]))
+                    return ok(Sym("guard-of-T")) if present else err(Sym("StateError::NotFound"))
+                table = {"mahf::state::registry::StateRegistry::" + fam: acc, "core::clone::Clone::clone": lambda i, e, f, a: Sym("clone-of:%s" % getattr(load(i, e, a[0]), "tag", "?"))}
+                if meth == "get":
+                    gr = F.method(adt, "get_ref", "mahf::lens::LensRef")
+
+                    def via_get_ref(interp, env, f, args, gr=gr):
+                        # `self.get_ref(..)` on `Self: LensRef<P>`: the lens' own implementation
+                        outs_ = interp.call_body(gr, list(args))
+                        if len(outs_) == 1 and outs_[0][2] == "return":
+                            interp.mstate.clear()
+                            interp.mstate.update(outs_[0][3])
+                            return outs_[0][0]
+                        return TOP
+                    table["mahf::lens::LensRef::get_ref"] = via_get_ref
+                it = install(Interp(fn.body, chain(mk_oracle(table), coll_oracle, std_oracle), [Sym("self"), Sym("problem"), Sym("state")], facts=F,
+                                    inline=lambda k: k.startswith("<" + L) or k.startswith(L), max_visits=6))
+                n += 1
+                outs = [(p.end, p.ret.variant if isinstance(p.ret, Agg) else None, getattr(p.ret.fields[0], "tag", None) if isinstance(p.ret, Agg) and p.ret.fields and p.ret.variant == "Ok" else None) for p in it.run()]
+                want_val = ("clone-of:guard-of-T" if meth == "get" else "guard-of-T") if present else None
+                want = [("return", "Ok" if present else "Err", want_val)]
+                tys = {t for _, t in asked}
+                if outs != want or tys - {"T"} or not asked:
+                    bad.append(("present" if present else "missing", "yields %s after asking the registry for %s; expected %s from the lens' own T" % (outs, sorted(map(str, asked)), want)))
+            ctx.check(not bad, "C10.R8", fn.key, "own-state-" + meth, "with T %s: %s %s" % (bad[0] if bad else ("", ""), ) if False else "with T %s: %s" % (bad[0] if bad else ("", "")), loc=fn.loc())
+    # assign = store through get_mut
+    asg = F.fn_opt("<E as mahf::lens::LensAssign>::assign")
+    if asg is not None:
+        home = 10000
+        table = {"mahf::lens::LensMut::get_mut": ok(Ref(home, [], frame="root"))}
+        it = install(Interp(asg.body, chain(mk_oracle(table), coll_oracle, std_oracle), [Sym("self"), Sym("new-value"), Sym("problem"), Sym("state")], facts=F, max_visits=6))
+        it.extra_env = {home: Sym("old-value")}
+        ps = it.run()
+        n += 1
+        good = len(ps) == 1 and ps[0].end == "return" and isinstance(ps[0].ret, Agg) and ps[0].ret.variant == "Ok" and ps[0].env.get(home) == Sym("new-value")
+        ctx.check(good, "C10.R8", asg.key, "assign-stores-through-get_mut", "assign does not store the value into the target of get_mut: %s" % [(p.end, str(p.env.get(home))) for p in ps], loc=asg.loc())
+        bad_err = []
+        it = install(Interp(asg.body, chain(mk_oracle({"mahf::lens::LensMut::get_mut": err(Sym("missing"))}), coll_oracle, std_oracle), [Sym("self"), Sym("new-value"), Sym("problem"), Sym("state")], facts=F, max_visits=6))
+        ends = {(p.end, p.ret.variant if isinstance(p.ret, Agg) else None) for p in it.run()}
+        ctx.check(ends == {("return", "Err")}, "C10.R8", asg.key, "assign-reports-missing-target", "assign on a missing target yields %s" % sorted(map(str, ends)), loc=asg.loc())
+    else:
+        ctx.violation("C10.R8", "mahf::lens::LensAssign", "assign", "the blanket LensAssign::assign was not found", kind="anchor-missing")
+    # PopulationSizeLens: size of the top population
+    from c04 import StackModel
+    POP = "mahf::state::common::Populations"
+    sf = F.field_index(POP, "stack")
+    fn = F.method(L + "PopulationSizeLens", "map", "mahf::lens::LensMap")
+    bad = []
+    for sizes in ((2,), (3, 1), (0, 2), (1, 0)):
+        it = install(Interp(fn.body, chain(StackModel(sf), coll_oracle, std_oracle), [Sym("self"), Sym("populations", {sf: Sym("stack")})], facts=F, inline=lambda k: k.startswith(POP + "::"), max_visits=8))
+        it.init_state = {"stack": tuple(Vec("p%d" % i) for i in range(len(sizes))), "next_vec": 0, "heap": {"p%d" % i: tuple(Sym("i%d_%d" % (i, j)) for j in range(k)) for i, k in enumerate(sizes)}}
+        n += 1
+        for p in it.run():
+            if p.end != "return" or p.ret != sizes[-1]:
+                bad.append((list(sizes), "yields %s, expected the size of the top population: %d" % (p.ret if p.end == "return" else p.end, sizes[-1])))
+    ctx.check(not bad, "C10.R8", fn.key, "size-of-top-population", "population sizes bottom..top %s: PopulationSizeLens %s" % (bad[0] if bad else ("", "")), loc=fn.loc())
+    ctx.count("lens_scenarios", n)
